@@ -75,7 +75,7 @@ const L2Rule = "; L2 family (complete client against wire-level peers, one proce
 	"k=0 and k=1 are fixed (k=0: three peers answer a block request with a block that has the right header and altered transactions — the " +
 	"response handler bans and disconnects its own peer — and have already written more copies / pings / filters behind it; k=1: BanPeer / " +
 	"Peer.Disconnect from the harness in the middle of a block or filter-batch response); k>=2 seeded: chain 120-240 blocks, 2-3 honest peers " +
-	"(answering after 15-40 ms so that a burst occupies every worker), 2-4 actor peers with role in {handler-ban, readloop-disconnect (tx inv), " +
+	"(answering after 15-40 ms so that a burst occupies every worker), 3-5 actor peers with role in {handler-ban, readloop-disconnect (tx inv), " +
 	"api-ban, api-peer-disconnect, api-node-disconnect, remote-close (control)}, armed in seeded rounds, cut point 0-100 % of the response stream, " +
 	"disconnect from the serving goroutine or from another one, trailing messages from {mutated copy, ping, unsolicited cfilter, unsolicited block, " +
 	"honest answer}, optional unsolicited chatter (ping / cfilter / block) on any peer; 2-4 rounds of (#peers + 0-4) concurrent GetBlock / " +
@@ -85,7 +85,7 @@ const L2Rule = "; L2 family (complete client against wire-level peers, one proce
 	"peer was answering) and the scenario was judged"
 
 // L2Count returns the number of L2 scenarios of the tier.
-func L2Count(r *evid.Run) int { return r.Pick(12, 160) }
+func L2Count(r *evid.Run) int { return r.Pick(16, 200) }
 
 // L2Describe adds the assumptions of the L2 family.
 func L2Describe(r *evid.Run) {
@@ -240,13 +240,16 @@ func L2MakePlan(seed int64, k int) *L2Plan {
 			{Role: l2RoleHandlerBan, Arm: []int{3}, Trail: trail},
 			{Role: l2RoleHandlerBan, Arm: []int{1}, Trail: []string{l2TrailBad, l2TrailBlock, l2TrailBad}},
 			{Role: l2RoleHandlerBan, Arm: []int{3}, Trail: []string{l2TrailBad, l2TrailPing, l2TrailPing, l2TrailBad}, Chatter: true},
+			{Role: l2RoleHandlerBan, Arm: []int{1}, Trail: trail},
+			{Role: l2RoleHandlerBan, Arm: []int{2}, Trail: []string{l2TrailBad, l2TrailBad}},
+			{Role: l2RoleHandlerBan, Arm: []int{3}, Trail: []string{l2TrailBad, l2TrailFilter, l2TrailFilter, l2TrailBad}},
 		}
 		hp := newHeightPool(rng, pl.ChainLen, 20)
 		three := func() int { return 3 }
 		for r := 0; r < 3; r++ {
-			pl.Rounds = append(pl.Rounds, hp.calls(rng, 10, 0, three))
+			pl.Rounds = append(pl.Rounds, hp.calls(rng, 13, 0, three))
 		}
-		pl.Probe = hp.calls(rng, 9, 0, three)
+		pl.Probe = hp.calls(rng, 12, 0, three)
 		return pl
 	case 1:
 		// FIXED: local disconnects through the peer API in the middle of
@@ -258,14 +261,16 @@ func L2MakePlan(seed int64, k int) *L2Plan {
 			{Role: l2RoleAPIPeer, Arm: []int{1, 3}, CutPct: 40, Async: true, Pre: 4, BadFirst: true, DelayUs: 500, Trail: []string{l2TrailFilter, l2TrailFilter, l2TrailBlock}},
 			{Role: l2RoleAPINode, Arm: []int{2, 3}, CutPct: 60, Pre: 2, DelayUs: 100, Trail: []string{l2TrailPing, l2TrailBlock, l2TrailBlock}, Chatter: true},
 			{Role: l2RoleAPIPeer, Arm: []int{2, 3}, CutPct: 30, Async: true, Pre: 3, BadFirst: true, DelayUs: 200, Trail: []string{l2TrailBlock, l2TrailBlock}},
+			{Role: l2RoleAPIBan, Arm: []int{3}, CutPct: 20, Async: true, Pre: 1, BadFirst: true, DelayUs: 400, Trail: []string{l2TrailPing, l2TrailBlock}},
+			{Role: l2RoleAPINode, Arm: []int{1, 2}, CutPct: 50, Pre: 2, BadFirst: true, DelayUs: 600, Trail: []string{l2TrailBlock, l2TrailFilter}},
 		}
 		hp := newHeightPool(rng, pl.ChainLen, 30)
 		three := func() int { return 3 }
 		for r := 0; r < 3; r++ {
-			pl.Rounds = append(pl.Rounds, hp.calls(rng, 6, 1+r%2, three))
+			pl.Rounds = append(pl.Rounds, hp.calls(rng, 9, 1+r%2, three))
 		}
 		pl.Focus = []bool{false, true, false}
-		pl.Probe = hp.calls(rng, 6, 1, three)
+		pl.Probe = hp.calls(rng, 8, 1, three)
 		return pl
 	}
 
@@ -277,7 +282,7 @@ func L2MakePlan(seed int64, k int) *L2Plan {
 	for i := 0; i < pl.Honest; i++ {
 		pl.HonestChatter = append(pl.HonestChatter, rng.Intn(4) == 0)
 	}
-	nActors := 2 + rng.Intn(3)
+	nActors := 3 + rng.Intn(3)
 	nRounds := 2 + rng.Intn(3)
 	pl.StopMid = rng.Intn(4) == 0
 	pl.Persist = rng.Intn(2) == 0
@@ -365,6 +370,7 @@ type l2ActorRun struct {
 	p      *netsim.Peer
 	armed  atomic.Bool
 	onlyCF atomic.Bool // armed for filter-batch requests only (focus rounds)
+	banned atomic.Bool // it did something the client bans for: it will not be connected to again
 	x      *l2Exec
 	rng    *rand.Rand // used only from the peer's serving goroutine
 }
@@ -525,6 +531,7 @@ func (a *l2ActorRun) mutate(p *netsim.Peer, req wire.Message, honest []wire.Mess
 			return honest // stays armed until it is asked for a block
 		}
 		a.armed.Store(false)
+		a.banned.Store(true)
 		blk := honest[0].(*wire.MsgBlock)
 		stream := append([]wire.Message{l2MutateBlock(blk, a.rng.Intn(2) == 0)}, a.trailMsgs(req, honest)...)
 		fire.Stream, fire.Cut = len(stream), 1
@@ -550,10 +557,14 @@ func (a *l2ActorRun) mutate(p *netsim.Peer, req wire.Message, honest []wire.Mess
 	// API roles and the remote-close control: a response stream with a cut
 	// point at which the disconnect is initiated.
 	a.armed.Store(false)
+	if a.spec.Role == l2RoleAPIBan {
+		a.banned.Store(true)
+	}
 	var stream []wire.Message
 	minCut := 0
 	if on == "block" {
 		if a.spec.BadFirst {
+			a.banned.Store(true)
 			stream = append(stream, l2MutateBlock(honest[0].(*wire.MsgBlock), a.rng.Intn(2) == 0))
 			minCut = 1
 			fire.Note = "bad-first "
@@ -765,7 +776,7 @@ func (x *l2Exec) wait(cs []*l2CallRun, d time.Duration) []*l2CallRun {
 
 // judgeStuck decides what a call (or Stop) that has not returned after its
 // watchdog means. gids are the goroutines of the pending calls.
-func (x *l2Exec) judgeStuck(what string, gids []int) (violated bool, sig, text string, witness map[string]any) {
+func (x *l2Exec) judgeStuck(what string, gids []int, watchdog time.Duration) (violated bool, sig, text string, witness map[string]any) {
 	// Quiesce everything the harness does on its own.
 	x.chatterOn.Store(false)
 	for _, a := range x.actors {
@@ -874,7 +885,7 @@ func (x *l2Exec) judgeStuck(what string, gids []int) (violated bool, sig, text s
 	}
 	sig = evid.Sig("c12-l2", "never-terminates", kind, "read-loop-parked-in="+strings.TrimPrefix(loops[0][strings.Index(loops[0], "@ ")+2:], " "))
 	text = fmt.Sprintf("%s has not returned %v after it was issued although %d honest peer(s) are connected and answering; two goroutine dumps %v apart show the caller, all %d goroutines of the query package (%s) and the read loop of a peer (%s) parked in identical frames: the batch never gets a verdict",
-		what, l2CallWatchdog, live, l2DumpGap, nQuery, strings.Join(uniq(queryParks), "; "), strings.Join(uniq(loops), "; "))
+		what, watchdog, live, l2DumpGap, nQuery, strings.Join(uniq(queryParks), "; "), strings.Join(uniq(loops), "; "))
 	return true, sig, text, witness
 }
 
@@ -991,7 +1002,7 @@ func L2Scenario(seed int64, k int, res *l2.Result) {
 			// Stop is idempotent: this only closes the database.
 			_, _ = w.StopClient(10 * time.Second)
 		case <-time.After(watchdog):
-			v, sig, text, wit := x.judgeStuck("Stop", []int{id})
+			v, sig, text, wit := x.judgeStuck("Stop", []int{id}, watchdog)
 			if v {
 				res.Violate(sig, text, wit)
 			} else {
@@ -1014,7 +1025,7 @@ func L2Scenario(seed int64, k int, res *l2.Result) {
 		}
 		sort.Strings(ks)
 		what := fmt.Sprintf("%d call(s) (%s) of %s", len(pend), strings.Join(ks, "+"), phase)
-		v, sig, text, wit := x.judgeStuck(what, gids)
+		v, sig, text, wit := x.judgeStuck(what, gids, l2CallWatchdog)
 		if v {
 			res.Violate(sig, text, wit)
 		} else {
@@ -1035,9 +1046,9 @@ func L2Scenario(seed int64, k int, res *l2.Result) {
 				}
 			}
 		}
-		l2.WaitFor(4*time.Second, func() bool {
+		l2.WaitFor(3*time.Second, func() bool {
 			for _, a := range arm {
-				if !peerLive(a.p) {
+				if !a.banned.Load() && !peerLive(a.p) {
 					return false
 				}
 			}
@@ -1056,6 +1067,9 @@ func L2Scenario(seed int64, k int, res *l2.Result) {
 		}
 		nArmed := 0
 		for _, a := range arm {
+			if a.banned.Load() {
+				continue
+			}
 			if peerLive(a.p) {
 				a.onlyCF.Store(focus)
 				a.armed.Store(true)
@@ -1089,7 +1103,7 @@ func L2Scenario(seed int64, k int, res *l2.Result) {
 			// Stop while the burst is in flight: after the first actor
 			// fired (or a short while).
 			n0 := len(x.firesCopy())
-			l2.WaitFor(80*time.Millisecond, func() bool { return len(x.firesCopy()) > n0 })
+			l2.WaitFor(time.Second, func() bool { return len(x.firesCopy()) > n0 })
 			x.stopping.Store(true)
 			stop(l2StopWatchdog)
 			if stuck {
@@ -1338,4 +1352,27 @@ func L2Debug(seed int64, k int) {
 	res.WallS = time.Since(t0).Seconds()
 	b, _ := json.MarshalIndent(res, "", " ")
 	fmt.Println(string(b))
+}
+
+// L2Replay re-runs scenario k of the given seed in this process and folds its
+// result into r (replay of an L2 witness).
+func L2Replay(r *evid.Run, seed int64, k int) {
+	res := &l2.Result{Scenario: k}
+	L2Scenario(seed, k, res)
+	r.Case(res.Fingerprint, res.Nontrivial)
+	for _, m := range res.Marks {
+		r.Mark(m)
+	}
+	for c, v := range res.Counters {
+		r.Count(c, v)
+	}
+	for _, why := range res.Inconclusive {
+		r.Inconclusive(why)
+	}
+	for _, v := range res.Violations {
+		r.Violation(v.Sig, v.What, map[string]any{"scenario": k, "name": res.Name, "witness": v.Witness})
+	}
+	if res.Sample != nil {
+		r.Sample(res.Sample)
+	}
 }
